@@ -42,19 +42,21 @@ def run(rep):
     rep.explanation = __doc__
     rep.trusted = ['rustc nightly MIR + Instance resolution', 'std::process / OS pipe semantics',
                    'rustfmt and prettyplease print the token sequence they are given']
-    tops = [n for n, b in mir.bodies.items() if any(cname(t) == 'naga::front::wgsl::parse_str' for _, t in b.calls())]
-    rep.floor('top-level generating function (calls the WGSL front end)', len(tops), 1)
-    if not tops:
-        return
+    import rules.c18 as c18
+    c18._MIR[0] = mir
+    from mirutil import local_is_field_value as local_from_field, place_reads_field
     spawners = {n for n, b in mir.bodies.items() if any(cname(t).startswith('std::process::') for _, t in b.calls())}
     pr = mir.callers_closure(spawners)
     unparsers = mir.callers_closure({n for n, b in mir.bodies.items() if any(cname(t) == 'prettyplease::unparse' for _, t in b.calls())})
-    gated = []  # (body, bb, terminator)
-    for tn in tops:
+    gated = []  # (body, bb, terminator): call of a formatter function on the true edge of a branch on the rustfmt option
+    tops = []
+    for tn in sorted(mir.bodies):
         T = mir.bodies[tn]
         for bb, t in T.calls():
-            if cname(t) in pr and cname(t) in mir.bodies and rustfmt_gated(T, bb):
+            if cname(t) in pr and cname(t) in mir.bodies and cname(t) != tn and rustfmt_gated(T, bb, mir):
                 gated.append((T, bb, t))
+                if tn not in tops:
+                    tops.append(tn)
     rep.floor('rustfmt-gated printer call', len(gated), 1)
     F = set()
     for T, bb, t in gated:
@@ -68,22 +70,16 @@ def run(rep):
             blk = x['block']
             # the rustfmt switch is the nearest guard for which rustfmt_gated holds
             sw = blk
-        # find the switch on .rustfmt
+        # find the switch on the rustfmt option (read here, or handed in by every caller from WriteOptions.rustfmt)
         sw = None
         for cand in sorted(T.dominators()[bb], reverse=True):
             tt = T.blocks[cand]['term']
             if tt['k'] == 'switch':
                 dp = op_place(tt['discr'])
-                if dp and any(isinstance(e, dict) and e.get('f') == 'rustfmt' for e in dp['p']):
+                dl = op_local(tt['discr'])
+                if (dp and place_reads_field(dp, 'WriteOptions', 'rustfmt')) or (dl is not None and local_from_field(mir, T, dl, 'WriteOptions', 'rustfmt')):
                     sw = cand
                     break
-                dl = op_local(tt['discr'])
-                if dl is not None:
-                    _, _, stmts = T.backward_slice([dl], through_calls=False)
-                    if any(any(isinstance(e, dict) and e.get('f') == 'rustfmt' for e in p['p'])
-                           for _, st in stmts for p in T.rvalue_places(st['rv'])):
-                        sw = cand
-                        break
         if sw is None:
             rep.bad('C19.a.same-tokens', 'rustfmt-switch', T.where(bb), 'cannot find the branch on the rustfmt option', undecided=True)
             continue
